@@ -135,6 +135,9 @@ struct ThreadLocalCache {
     thread_id: ThreadId,
     /// Current hot allocation area
     hot_area: Option<HotArea>,
+    /// Exhausted hot areas: blocks carved from them may still be live (or cached in the
+    /// free lists), so their memory is kept until the cache itself is dropped
+    retired_areas: Vec<HotArea>,
     /// Free lists for each size class
     free_lists: Vec<Vec<NonNull<u8>>>,
     /// Lazy synchronization counter
@@ -176,9 +179,9 @@ impl HotArea {
 
     /// Try to allocate from hot area
     fn try_allocate(&mut self, size: usize) -> Option<NonNull<u8>> {
-        let aligned_size = (size + 7) & !7; // 8-byte alignment
+        let aligned_size = size.checked_add(7)? & !7; // 8-byte alignment
         
-        if self.pos + aligned_size <= self.end {
+        if self.pos.checked_add(aligned_size)? <= self.end {
             let ptr = unsafe { 
                 NonNull::new_unchecked(self.start.as_ptr().add(self.pos))
             };
@@ -209,6 +212,7 @@ impl ThreadLocalCache {
         Self {
             thread_id: thread::current().id(),
             hot_area: None,
+            retired_areas: Vec::new(),
             free_lists: vec![Vec::new(); TLS_SIZE_CLASSES.len()],
             frag_inc: 0,
             global_pool,
@@ -218,6 +222,10 @@ impl ThreadLocalCache {
 
     /// Allocate memory from thread-local cache
     fn allocate(&mut self, size: usize, config: &ThreadLocalPoolConfig) -> Result<NonNull<u8>> {
+        // A block that belongs to a size class is carved at the full class size: once freed it
+        // is cached under that class and may be handed out for any request of the class
+        let mut carve_size = size;
+
         // Try size class free list first
         if let Some(list_index) = self.size_to_list_index(size) {
             if let Some(ptr) = self.free_lists[list_index].pop() {
@@ -226,7 +234,9 @@ impl ThreadLocalCache {
                 }
                 return Ok(ptr);
             }
+            carve_size = TLS_SIZE_CLASSES[list_index];
         }
+        let size = carve_size;
 
         // Try hot area allocation
         if let Some(ref mut hot_area) = self.hot_area {
@@ -278,7 +288,10 @@ impl ThreadLocalCache {
             Ok(mut hot_area) => {
                 // Try to allocate from new hot area
                 if let Some(ptr) = hot_area.try_allocate(size) {
-                    self.hot_area = Some(hot_area);
+                    // The previous area stays allocated: blocks carved from it are still in use
+                    if let Some(old_area) = self.hot_area.replace(hot_area) {
+                        self.retired_areas.push(old_area);
+                    }
                     
                     if let Some(stats) = &self.stats {
                         stats.arena_allocations.fetch_add(1, Ordering::Relaxed);
@@ -304,12 +317,12 @@ impl ThreadLocalCache {
             stats.cache_misses.fetch_add(1, Ordering::Relaxed);
         }
 
-        if let Some(global_pool) = self.global_pool.upgrade() {
-            // Use the regular allocate method since we don't have bypass_cache
-            global_pool.allocate(size).and_then(|alloc| {
-                NonNull::new(alloc.as_ptr())
-                    .ok_or_else(|| ZiporaError::out_of_memory(size))
-            })
+        if self.global_pool.upgrade().is_some() {
+            // There is no bypass path into the global pool: calling its allocate() here would
+            // re-enter this thread's cache (already mutably borrowed) and the returned RAII
+            // allocation would be released as soon as it went out of scope.  A request the
+            // thread cache cannot serve is therefore refused.
+            Err(ZiporaError::out_of_memory(size))
         } else {
             Err(ZiporaError::invalid_data("Global pool unavailable"))
         }
